@@ -287,6 +287,19 @@ def dupdate (ρ : DEnv F) (x : Nat) (v : Val F) : DEnv F :=
   | [] => []
   | (y, c, w) :: rest => if x = y then (y, c, v) :: rest else (y, c, w) :: dupdate rest x v
 
+/-- one name on the left of a multi-name `:=` (names are resolved in `ρ₀`, the environment before
+the statement): an existing variable is assigned, a new one is pushed -/
+def storeShort (ρ₀ ρ : DEnv F) (x : Nat) (v : Val F) : Res (DEnv F) :=
+  match dlookup ρ₀ x with
+  | some (_, old) =>
+    match old.btype? with
+    | some t => (assignVal fs t v).bind fun v' => .ok (dupdate ρ x v')
+    | none => .stuck
+  | none =>
+    match v.btype? with
+    | some t => (assignVal fs t v).bind fun v' => .ok ((x, false, v') :: ρ)
+    | none => .stuck
+
 def exec (ρ : DEnv F) : Stmt → Res (DEnv F)
   | .varDecl x (some t) (some e) =>
     (eval fs ρ e).bind fun v => (assignVal fs t v).bind fun v' => .ok ((x, false, v') :: ρ)
@@ -295,6 +308,9 @@ def exec (ρ : DEnv F) : Stmt → Res (DEnv F)
       match v.btype? with
       | some t => (assignVal fs t v).bind fun v' => .ok ((x, false, v') :: ρ)
       | none => .stuck
+  | .shortDecl2 x y e₁ e₂ =>
+    (eval fs ρ e₁).bind fun v₁ => (eval fs ρ e₂).bind fun v₂ =>
+      (storeShort fs ρ ρ x v₁).bind fun ρ₁ => storeShort fs ρ ρ₁ y v₂
   | .varDecl x (some t) none => .ok ((x, false, zeroVal fs t) :: ρ)
   | .varDecl _ none none => .stuck
   | .constDecl x (some t) e => (eval fs ρ e).bind fun v => (constVal t v).bind fun v' => .ok ((x, true, v') :: ρ)
